@@ -99,12 +99,13 @@ Definition run (cutoff : Z) (y : sys) (evs : list ev) : sys := fold_left (ev_ste
     each at a position of the scanner — [IV n]: before the walk takes its n-th snapshot,
     [IR n]: before the scanner's n-th RemoveMessage call —; the context is cancelled at the
     start of the [cancel_at]-th callback (0 = never). *)
-Inductive ipos := IV (n : nat) | IR (n : nat).
+Inductive ipos := IV (n : nat) | IR (n : nat) | IA (n : nat).   (* IA n: right after the n-th RemoveMessage call *)
 
 Definition at_pos (cutoff : Z) (y : sys) (p : ipos) : bool :=
   match p, s_phase y with
   | IV n, PIdle => Nat.eqb (s_visited y) (Nat.pred n)
   | IR n, PBox _ (v :: _) => expired cutoff (snd v) && Nat.eqb (S (s_attempts y)) n
+  | IA n, _ => Nat.eqb (s_attempts y) n
   | _, _ => false
   end.
 
